@@ -175,6 +175,11 @@ def _target_names(t):
     return []
 
 
+def A_canon(text):
+    from ..absint import canon_test
+    return canon_test(text)
+
+
 def _algebra(repo, rep):
     ci = repo.cls(TOK)
     n = 0
@@ -237,6 +242,30 @@ def _algebra(repo, rep):
                         "separator (or on a search in the receiver), not only "
                         "on the lengths of the previous parts")
                 split_ok = ok
+                # split on white space (sep=None): the run in front of
+                # *every* part -- the first one included -- has no fixed
+                # length, so each part's position comes from a search; the
+                # search may depend on nothing but 'sep is None'
+                def only_sep_guards(n):
+                    for g_, truth in L.guards_of(n, m.node):
+                        if not isinstance(g_, ast.expr):
+                            return False
+                        ct, flip = A_canon(src(g_))
+                        if ct.replace(" ", "") != "sepisNone" or \
+                                (truth != flip) is not True:
+                            return False
+                    return True
+                rep.check(any(only_sep_guards(n) for n in searches),
+                          "R11.1", site, "split on white space: every "
+                          "part's position is found by a search in the "
+                          "receiver (the blanks in front of a part, also of "
+                          "the first one, are not counted by lengths)",
+                          construct="pos:split-whitespace", where=wh,
+                          detail="searches: %s" % [
+                              (src(n)[:40], [src(g_[0])[:40] for g_ in
+                                             L.guards_of(n, m.node)
+                                             if isinstance(g_[0], ast.expr)])
+                              for n in searches])
             else:
                 ok = "self.pos" in d
                 what = "%s: derived position depends on the receiver's" % name
@@ -673,7 +702,7 @@ def _edited_upstream(repo, rep):
     from .c12 import _extent
     L.borrow(repo, rep, "R11.2", "C12", _extent,
              ("decoded-before-ref", "unescaped-before-ref",
-              "decode-keeps-token"), minimum=4)
+              "decode-keeps-token", "shortened-before-split"), minimum=5)
     # ... and a valid template is never rejected: the clause splitter has
     # to work on the text as written (decoded first, 'a&amp;b; y 2' reads
     # 'a&b; y 2' and '&b;' is protected like an entity)
